@@ -59,6 +59,18 @@ func init() {
 }
 
 var checks = map[string]*Check{
+	"C03": {ID: "C03", Harness: "match", Func: "C03", Category: "model_checking", QuickDeadline: 240, ThoroughDeadline: 1500, Race: true,
+		Engine: "E1", DesignRef: "6/C03",
+		Technique: "bounded-exhaustive input enumeration x deviation-bounded exhaustive exploration of map-iteration orders (every range over a map is an explicit choice point owned by the explorer) with deep argument snapshots; plus a free-running race-detector pass with shared arguments",
+		LevelText: "For every triple of the space the real matcher is executed under every combination of map-iteration orders with up to k deviating range executions; the result multiset and error outcome must not depend on the order, the arguments must be untouched (deep snapshots), results must be independent maps. A separate -race build matches the same argument objects from three goroutines.",
+		LevelNote: "Trusted: the range rewrite (vinstr) and vrange.Keys; ThreadSanitizer for the concurrent clause (goroutines share no synchronisation, so the happens-before verdict is schedule independent). Orders of maps with more than 4 keys are not fully enumerated (rotations + reversal).",
+		Assumptions: commonAssumptions},
+	"C02": {ID: "C02", Harness: "match", Func: "C02", Category: "exploration", QuickDeadline: 240, ThoroughDeadline: 1500,
+		Engine: "E1", DesignRef: "6/C02",
+		Technique: "bounded-exhaustive enumeration of (pattern, message) pairs against a reference backtracking enumerator of embeddings, plus exhaustive planting (instantiated pattern + every insertion of distractors up to k)",
+		LevelText: "Every small pattern/message pair over a two-letter alphabet is matched by the real matcher and by a plain backtracking reference: every embedding must be returned (and nothing else for plain patterns). Deeper: every assignment is planted into the instantiated pattern and buried under every combination of up to k partially-matching distractors; the planted assignment must be found.",
+		LevelNote: "Trusted: reference enumerator rt/ref/rmatch.Embeddings. Side conditions of the property (arrays as sets, repeated variables scalar, planted array value distinct from constant members) are enforced by the generator; inequality variables are not part of this check.",
+		Assumptions: commonAssumptions},
 	"C13": {ID: "C13", Harness: "core", Func: "C13", Category: "exploration", QuickDeadline: 240, ThoroughDeadline: 1500,
 		Engine: "E1", DesignRef: "6/C13",
 		Technique: "bounded-exhaustive enumeration of abstract specs x representations x pattern syntaxes x compile variants; differential of complete behaviour trees (all message sequences up to a bound) against the Go-structure rendering",
